@@ -36,8 +36,14 @@ func (o *C03) Check(x *h.Exec, ev *h.Event) {
 	if c != nil && len(c.Orders) > 0 {
 		others = c.Orders
 	}
-	// the history session: a decoder that has already served other queries
-	hist := x.S.NewSession()
+	// the history session: a decoder that has already served other queries -
+	// the scenario's long-lived one, which has seen every earlier check and
+	// lives across the edits in between (a server keeps one decoder and its
+	// reader hands out a new path context after every change)
+	hist := x.Sess
+	if hist == nil {
+		hist = x.S.NewSession()
+	}
 	compare := func(q h.Query) bool {
 		q.Order = h.Order{P: "asc"}
 		r0 := x.Run(q)
